@@ -507,12 +507,18 @@ func strUpper(L *LState) int {
 }
 
 func luaIndex2StringIndex(str string, i int, start bool) int {
-	if start && i != 0 {
-		i -= 1
-	}
 	l := len(str)
 	if i < 0 {
-		i = l + i + 1
+		// relative to the end; anything before the first character is the first character
+		// (computed without i-1 or l+i overflowing for the most negative int)
+		if i < -l {
+			i = 0
+		} else {
+			i = l + i + 1
+		}
+	}
+	if start && i != 0 {
+		i -= 1
 	}
 	i = intMax(0, i)
 	if !start && i > l {
